@@ -121,13 +121,13 @@ def batch_spec(draw, procs: int, cold: bool):
     napps = draw(st.sampled_from([1, 2, 2, 3, 3]))
     apps = draw(st.lists(st.sampled_from(sv.APP_NAMES), min_size=napps, max_size=napps, unique=True))
     if cold:
-        size = draw(st.sampled_from([1, 2, 2, 3, 4, 8, 16]))
+        size = draw(st.sampled_from([2, 3, 4, 1, 8, 16, 2]))
     else:
         size = draw(st.sampled_from([1, 2, 3, 5, 8, 8, 12, 16, 16, 24, 32, 48, 64]))
     reqs = [draw(request_spec(apps)) for _ in range(size)]
     spec = {'procs': procs, 'cold': cold, 'nonce': draw(st.integers(1, 10**6)), 'reqs': reqs}
     if cold:
-        spec['list_ms'] = draw(st.sampled_from([0, 5, 30, 100]))
+        spec['list_ms'] = draw(st.sampled_from([30, 5, 100, 0]))
         spec['get_ms'] = draw(st.sampled_from([0, 0, 5, 30]))
     else:
         spec['list_ms'] = draw(st.sampled_from([0, 0, 5, 30]))
@@ -211,7 +211,8 @@ def judge(ctx, spec: dict, outcomes: list, tags: list) -> int:
                     and f'Application {req["app"]} not found' in str(exc)
                 ):
                     extra = ['first-request-race']
-                key = ctx.fail_exc(spec, clause, exc, tags + extra + ([f'fault-{fault}'] if fault != 'none' else []))
+                ftag = [f'fault-{fault}'] if fault != 'none' and not extra else []
+                key = ctx.fail_exc(spec, clause, exc, tags + extra + ftag)
                 if extra:
                     ctx.mask(key)
             continue
@@ -273,7 +274,8 @@ def _documented(fault: str, exc: BaseException) -> bool:
 
 
 # ---- sessions --------------------------------------------------------------------------------------------------------
-_STATE = {'phase': 'pre', 'sessions': {}, 'registry': None, 'atexit': False}
+_STATE = {'phase': 'pre', 'sessions': {}, 'registry': None, 'atexit': False, 'dead': {}, 'confirmed': 0}
+MAX_CONFIRMED_TIMEOUTS = 1  # per process: confirming costs two fresh engines and three deadlines
 
 
 def _registry(ctx) -> str:
@@ -291,29 +293,33 @@ def _bump(ctx, name: str, by=1) -> None:
     ctx.extra[name] = ctx.extra.get(name, 0) + by
 
 
-def _fresh(ctx, procs: int, warm: bool):
-    """A new engine; warmed (and the warm-up judged) if asked. Returns (session, ok)."""
-    session = sv.Session(_registry(ctx), procs)
-    _bump(ctx, 'engines_started')
-    ok = True
-    if warm:
-        ok = _warm(ctx, session)
-    return session, ok
+def _note(ctx, message: str) -> None:
+    if len(ctx.inconclusive) < 20:
+        ctx.inconclusive.append(message)
 
 
-def _warm(ctx, session) -> bool:
-    for k, spec in enumerate(warmup_specs(session.procs)):
-        outcomes = session.fire(spec, deadline(spec, True))
-        before = len(ctx.failures)
-        timeouts = judge(ctx, spec, outcomes, ['warmup'])
-        if timeouts:
-            session.broken = True
-            ctx.inconclusive.append(f'warm-up step {k} of an engine (procs={session.procs}) timed out')
-            return False
-        if len(ctx.failures) != before:
-            return False
-    session.warmed = True
-    return True
+def _engine(ctx, procs: int, warm: bool):
+    """A new engine, warmed if asked (the warm-up requests are judged like any other). A warm-up that does not complete
+    is retried on two more fresh engines; three timeouts in a row are a violation and ``None`` is returned."""
+    for attempt in (1, 2, 3):
+        session = sv.Session(_registry(ctx), procs)
+        _bump(ctx, 'engines_started')
+        if not warm:
+            return session
+        stuck = None
+        for spec in warmup_specs(procs):
+            outcomes = session.fire(spec, deadline(spec, True))
+            if judge(ctx, spec, outcomes, ['warmup']):
+                stuck = spec
+                break
+        if stuck is None:
+            return session
+        session.broken = True
+        session.close()
+        if attempt < 3:
+            _note(ctx, f'warm-up of an engine (procs={procs}) timed out (attempt {attempt}), retrying on a fresh engine')
+    ctx.fail(stuck, 'completes-once', 'timeout', 'warm-up request(s) never completed on three fresh engines', ['warmup'])
+    return None
 
 
 def _session(ctx, procs: int):
@@ -323,13 +329,16 @@ def _session(ctx, procs: int):
     if session is not None and (session.broken or session.closed):
         session.close()
         session = None
+        sessions.pop(procs, None)
     if session is None:
+        if _STATE['dead'].get(procs):
+            return None
         for other in list(sessions.values()):  # one long-lived engine at a time
             other.close()
         sessions.clear()
-        session, ok = _fresh(ctx, procs, warm=True)
-        if not ok:
-            session.close()
+        session = _engine(ctx, procs, warm=True)
+        if session is None:
+            _STATE['dead'][procs] = True
             return None
         sessions[procs] = session
     return session
@@ -354,21 +363,25 @@ def _run(ctx, spec: dict, session, tags: list, first_use: bool) -> int:
 
 def _confirm_timeout(ctx, spec: dict, tags: list) -> None:
     """A batch did not complete: try it on two fresh engines; a violation only if it times out on both."""
+    if _STATE['confirmed'] >= MAX_CONFIRMED_TIMEOUTS and _STATE['phase'] == 'explore':
+        _bump(ctx, 'batch_timeouts_not_rechecked')
+        _note(ctx, 'further batch timeout after a confirmed one: not re-checked on fresh engines')
+        return
     cold = bool(spec['cold'])
     for attempt in (1, 2):
         sub = type(ctx)(ctx.pid, ctx.tier, ctx.seed, ctx.level)
-        session, ok = _fresh(ctx, spec['procs'], warm=not cold)
+        session = _engine(ctx, spec['procs'], warm=not cold)
+        if session is None:
+            return  # reported by _engine
         try:
-            if not ok:
-                ctx.inconclusive.append(f'batch timeout: fresh engine #{attempt} could not be warmed')
-                return
             timeouts = _run(sub, spec, session, tags, True)
         finally:
             session.close()
         if not timeouts:
-            ctx.inconclusive.append(f'batch timeout not reproduced on fresh engine #{attempt} ({len(spec["reqs"])} requests)')
+            _note(ctx, f'batch timeout not reproduced on fresh engine #{attempt} ({len(spec["reqs"])} requests)')
             return
-    pending = 'request(s) never completed within the deadline on the long-lived engine and on two fresh engines'
+    _STATE['confirmed'] += 1
+    pending = 'request(s) never completed within the deadline on the first engine and on two fresh engines'
     ctx.fail(spec, 'completes-once', 'timeout', pending, tags)
 
 
@@ -417,16 +430,16 @@ def check_batch(ctx, spec: dict) -> None:
     persistent = _STATE['phase'] != 'pre' and not cold
     if persistent:
         session = _session(ctx, spec['procs'])
-        if session is None:  # the warm-up itself failed and was reported
-            _bump(ctx, 'batches_skipped_warmup_failed')
+        if session is None:  # the warm-up itself never completed and was reported
+            _bump(ctx, 'batches_skipped_no_engine')
             return
         timeouts = _run(ctx, spec, session, tags, False)
     else:
-        session, ok = _fresh(ctx, spec['procs'], warm=not cold)
+        session = _engine(ctx, spec['procs'], warm=not cold)
+        if session is None:
+            _bump(ctx, 'batches_skipped_no_engine')
+            return
         try:
-            if not ok:
-                _bump(ctx, 'batches_skipped_warmup_failed')
-                return
             timeouts = _run(ctx, spec, session, tags, True)
         finally:
             session.close(background=_STATE['phase'] == 'explore')
@@ -445,7 +458,7 @@ def campaigns(ctx):
     procs = _procs(ctx)
     return [
         Campaign('warm', batch_spec(procs, False), check_batch, 22, 90),
-        Campaign('cold', batch_spec(procs, True), check_batch, 3, 6),
+        Campaign('cold', batch_spec(procs, True), check_batch, 4, 6),
     ]
 
 
